@@ -54,7 +54,7 @@ pub fn gen_stream_cmds(src: &mut Src) -> Vec<Cmd> {
     g.expiry = g.expiry && true;
     let b = |s: &str| s.as_bytes().to_vec();
     let mut cmds: Vec<Cmd> = Vec::new();
-    let blocks = src.list(12, 7, 8, |s| if s.chance(1, 24) { 8 } else { s.below(8) });
+    let blocks = src.list(12, 7, 8, |s| if s.chance(1, 24) { 8 } else if s.chance(1, 160) { 9 } else { s.below(8) });
     for kind in blocks {
         match kind {
             0 | 1 => { // GET/SET-heavy prefix of length 1..8, exact case or lower case
@@ -85,6 +85,11 @@ pub fn gen_stream_cmds(src: &mut Src) -> Vec<Cmd> {
                 let mut v = vec![b'x'; if huge { 40_000 } else { 9000 }]; v.extend_from_slice(format!("{}", cmds.len()).as_bytes());
                 cmds.push(vec![b("SET"), b("big"), v]);
                 for _ in 0..(8 + src.below(if huge { 16 } else { 4 })) { cmds.push(vec![b("GET"), b("big")]); }
+            }
+            9 => { // a deep pipeline of tiny commands: several hundred complete commands arrive in one read of the handler
+                let n = 300 + src.below(1300);
+                let k = g.key(src);
+                for i in 0..n { if i % 3 == 0 { cmds.push(vec![b("INCR"), k.clone()]); } else { cmds.push(vec![b("PING")]); } }
             }
             3 => cmds.push(vec![b("FOO"), b("a"), b("b")]),
             4 => cmds.push(vec![b("PING")]),
@@ -180,6 +185,8 @@ impl Property for C04 {
         let cmds = gen_stream_cmds(src);
         if cmds.iter().any(|c| c.len() == 3 && c[2].len() >= 9000) { rep.probe("reply_backlog_over_64k"); }
         if cmds.iter().any(|c| c.len() == 3 && c[2].len() >= 40_000) { rep.probe("reply_backlog_over_256k"); }
+        let deep = cmds.len() >= 300;
+        if deep { rep.probe("deep_pipeline_of_over_300_tiny_commands"); }
         let dmg_kind = src.below(6);
         let dmg_at = src.idx(cmds.len() + 1);
         let short_writes = if src.chance(1, 8) { 1 + src.idx(7) } else { 0 };
@@ -207,7 +214,7 @@ impl Property for C04 {
             2 => vec![h_a % len.max(1), h_b % len.max(1)],
             3 => vec![],
             _ => {
-                let style = src.below(4);
+                let style = if deep { 2 } else { src.below(4) }; // (a deep pipeline comes in large pieces, whole in the canonical case)
                 let mut v = Vec::new();
                 let mut pos = 0usize;
                 while pos < len {
